@@ -67,6 +67,7 @@ class BaseStandaloneNetworkServerImpl(AbstractNetworkServer, Generic[_T_AsyncSer
         "__threads_portal",
         "__is_shutdown",
         "__is_closed",
+        "__serve_forever_thread_id",
     )
 
     def __init__(
@@ -87,6 +88,7 @@ class BaseStandaloneNetworkServerImpl(AbstractNetworkServer, Generic[_T_AsyncSer
         self.__is_shutdown = _threading.Event()
         self.__is_shutdown.set()
         self.__is_closed = _threading.Event()
+        self.__serve_forever_thread_id: int | None = None
         self.__close_lock = ForkSafeLock()
         self.__bootstrap_lock = ForkSafeLock()
         self.__default_runner_options: dict[str, Any] = dict(runner_options) if runner_options else {}
@@ -132,6 +134,11 @@ class BaseStandaloneNetworkServerImpl(AbstractNetworkServer, Generic[_T_AsyncSer
                         stack.pop_all()
                         raise
                     except (RuntimeError, concurrent.futures.CancelledError):
+                        if self.__serve_forever_thread_id == _threading.get_ident():
+                            # Called from the serve_forever() thread itself (e.g. by a request handler): the portal refused,
+                            # and waiting here for serve_forever() to return would block the event loop forever.
+                            stack.pop_all()
+                            raise
                         scheduler_is_shutting_down = True
             if scheduler_is_shutting_down:
                 # serve_forever() is returning and closes the server by itself. Wait for it, so the listeners
@@ -199,10 +206,12 @@ class BaseStandaloneNetworkServerImpl(AbstractNetworkServer, Generic[_T_AsyncSer
 
             self.__is_shutdown.clear()
             server_exit_stack.callback(self.__is_shutdown.set)
+            self.__serve_forever_thread_id = _threading.get_ident()
 
             def reset_values() -> None:
                 self.__threads_portal = None
                 self.__server = None
+                self.__serve_forever_thread_id = None
 
             def reacquire_bootstrap_lock_on_shutdown() -> None:
                 locks_stack.enter_context(self.__bootstrap_lock.get())
